@@ -225,8 +225,8 @@ func init() {
 			{Kind: "pub2", Topic: "t/4", Msg: []byte("m4-dddd")},
 		}
 		s.Gens[0][1].Ops = []Op{
-			{Kind: "pub2", Topic: "t/5", Msg: []byte("m5-eeee")},
-			{Kind: "pub1", Topic: "t/6", Msg: []byte("m6-ffff")},
+			{Kind: "pub2", Topic: "t/15", Msg: []byte("m15-eee")}, // (names no other generation uses: monitors find identifiers by content)
+			{Kind: "pub1", Topic: "t/16", Msg: []byte("m16-fff")},
 		}
 		// acknowledgements of the first generation are withheld: everything stays pending
 		var w0 *World
